@@ -50,27 +50,44 @@ MatchFrom(outs, from) ==
 \* ---------------------------------------------------------------- steps
 InsAhead == Cardinality({i \in ln..Len(Tr) : Tr[i].k = "in" /\ Tr[i].t = now})
 
+\* The due timers of an iteration run in ANY order (equal deadlines: heap order).  Enumerating all orders at the poll is
+\* factorial; here they are kept as one pool entry at the end of the batch and picked one by one, so that an order which
+\* contradicts the logged outputs is abandoned at its first wrong callback.
 TPoll ==
   /\ s.todo = 0
-  /\ \E n \in 0..InsAhead : \E tq \in Perms(DueCopies(s)) :
+  /\ \E n \in 0..InsAhead :
        /\ n > 0 \/ s.ready # <<>> \/ Due(s) # {}
        /\ LET slots == [i \in 1..n |-> [kind |-> "slot"]]
-              s2 == [s EXCEPT !.ready = @ \o slots \o TimerCbs(tq), !.timers = @ \ Due(s), !.outs = <<>>]
-          IN s' = [s2 EXCEPT !.todo = Len(s2.ready)]
+              pool  == IF Due(s) = {} THEN <<>> ELSE <<[kind |-> "duepool", set |-> DueCopies(s)]>>
+              s2 == [s EXCEPT !.ready = @ \o slots \o pool, !.timers = @ \ Due(s), !.outs = <<>>]
+          IN s' = [s2 EXCEPT !.todo = Len(s.ready) + n + Cardinality(DueCopies(s))]
   /\ UNCHANGED <<tid, ln, now>>
 
 TRun ==
   /\ s.todo > 0
-  /\ LET c  == Head(s.ready)
-         s0 == [s EXCEPT !.ready = Tail(@), !.todo = @ - 1, !.outs = <<>>]
-     IN IF c.kind = "slot"
-        THEN /\ More /\ Tr[ln].k = "in" /\ Tr[ln].t = now
-             /\ \E ch \in Cfg.randVals, pk \in Cfg.epOrders : s' = [Effect([s0 EXCEPT !.ch = ch, !.pick = pk], [kind |-> "input", e |-> Tr[ln]]) EXCEPT !.ch = 0, !.pick = <<>>]
-             /\ MatchFrom(Tail(s'.outs), ln + 1)
-             /\ ln' = ln + Len(s'.outs)
-        ELSE /\ \E ch \in Cfg.randVals, pk \in Cfg.epOrders : s' = [Effect([s0 EXCEPT !.ch = ch, !.pick = pk], c) EXCEPT !.ch = 0, !.pick = <<>>]
-             /\ MatchFrom(s'.outs, ln)
-             /\ ln' = ln + Len(s'.outs)
+  /\ LET h == Head(s.ready) IN
+     \E x \in (IF h.kind = "duepool" THEN h.set ELSE {<<>>}) :
+       LET c    == IF h.kind = "duepool" THEN x[1].cb ELSE h
+           rest == IF h.kind = "duepool" /\ h.set # {x} THEN <<[h EXCEPT !.set = @ \ {x}]>> \o Tail(s.ready) ELSE Tail(s.ready)
+           s0   == [s EXCEPT !.ready = rest, !.todo = @ - 1, !.outs = <<>>]
+       IN IF c.kind = "slot"
+          THEN /\ More /\ Tr[ln].k = "in" /\ Tr[ln].t = now
+               /\ \E ch \in Cfg.randVals, pk \in Cfg.epOrders : s' = [Effect([s0 EXCEPT !.ch = ch, !.pick = pk], [kind |-> "input", e |-> Tr[ln]]) EXCEPT !.ch = 0, !.pick = <<>>]
+               /\ MatchFrom(Tail(s'.outs), ln + 1)
+               /\ ln' = ln + Len(s'.outs)
+          ELSE /\ \E ch \in Cfg.randVals, pk \in Cfg.epOrders : s' = [Effect([s0 EXCEPT !.ch = ch, !.pick = pk], c) EXCEPT !.ch = 0, !.pick = <<>>]
+               /\ MatchFrom(s'.outs, ln)
+               /\ ln' = ln + Len(s'.outs)
+  /\ UNCHANGED <<tid, now>>
+
+\* an environment call made from a timer callback (Cfg.timerPhase): it runs among the due timers of the iteration
+TRunTimerInput ==
+  /\ Cfg.timerPhase /\ s.todo > 0 /\ Head(s.ready).kind = "duepool"
+  /\ More /\ Tr[ln].k = "in" /\ Tr[ln].t = now
+  /\ \E ch \in Cfg.randVals, pk \in Cfg.epOrders :
+       s' = [Effect([s EXCEPT !.outs = <<>>, !.ch = ch, !.pick = pk], [kind |-> "input", e |-> Tr[ln]]) EXCEPT !.ch = 0, !.pick = <<>>]
+  /\ MatchFrom(Tail(s'.outs), ln + 1)
+  /\ ln' = ln + Len(s'.outs)
   /\ UNCHANGED <<tid, now>>
 
 \* the loop is idle: optionally matched by a logged idle marker, then one tick passes
@@ -88,7 +105,7 @@ TAdvance ==
         /\ now' = now + d
   /\ UNCHANGED <<tid, ln>>
 
-TNext == TPoll \/ TRun \/ TIdleMark \/ TAdvance
+TNext == TPoll \/ TRun \/ TRunTimerInput \/ TIdleMark \/ TAdvance
 TSpec == TInit /\ [][TNext]_tvars
 
 \* register tid = furthest line reached for that trace; verdicts printed at the end
